@@ -68,3 +68,12 @@ Lemma chordal_twin r00 r01 r02 r10 r11 r12 r20 r21 r22 s00 s01 s02 s10 s11 s12 s
   C07_chordal_b1_R r00 r01 r02 r10 r11 r12 r20 r21 r22 s00 s01 s02 s10 s11 s12 s20 s21 s22 =
   C07_chordal_s_R r00 r01 r02 r10 r11 r12 r20 r21 r22 s00 s01 s02 s10 s11 s12 s20 s21 s22.
 Proof. cbv delta [C07_chordal_b1_R C07_chordal_s_R]. cbv beta. reflexivity. Qed.
+
+(* euclidean (angle-wise distance with the 2pi wrap) and rmse: 1-D branch vs N-row branch, one-row and two-row batches *)
+Lemma euclidean_twin a0 a1 a2 b0 b1 b2 : C07_euclidean_b1_R a0 a1 a2 b0 b1 b2 = C07_euclidean_s_R a0 a1 a2 b0 b1 b2.
+Proof. unfold C07_euclidean_b1_R, C07_euclidean_s_R. twin_q. Qed.
+Lemma euclidean_twin2 k_a0 k_a1 k_a2 k_b0 k_b1 k_b2 a0 a1 a2 b0 b1 b2 :
+  C07_euclidean_b2_R k_a0 k_a1 k_a2 k_b0 k_b1 k_b2 a0 a1 a2 b0 b1 b2 = C07_euclidean_s_R a0 a1 a2 b0 b1 b2.
+Proof. unfold C07_euclidean_b2_R, C07_euclidean_s_R. twin_q. Qed.
+Lemma rmse_twin a0 a1 a2 b0 b1 b2 : C07_rmse_b1_R a0 a1 a2 b0 b1 b2 = C07_rmse_s_R a0 a1 a2 b0 b1 b2.
+Proof. unfold C07_rmse_b1_R, C07_rmse_s_R. twin_q. Qed.
